@@ -239,11 +239,12 @@ func (x *Exec) externCall(f *frame, in ssa.Instruction, callee *ssa.Function, c 
 	case "fmt.Errorf", "errors.New", "google.golang.org/grpc/status.Errorf", "google.golang.org/grpc/status.Error", "google.golang.org/grpc/internal/status.Errorf", "google.golang.org/grpc/internal/status.Error":
 		x.assumed["extern "+name+": returns a non-nil error and has no effect on modelled state"] = true
 		e := x.havocConst("err", "Int")
-		x.assume(st, sx(">", e, "0"))
 		if strings.Contains(name, "status.") {
-			x.assume(st, eq(x.statusCode(e), args[0].T))
-			// status.Error(OK, ..) returns nil
-			x.X.declare("statusok", "")
+			// status.Error(c, msg): nil for codes.OK, otherwise a non-nil error that carries a
+			// gRPC status with code c
+			x.assume(st, ite(eq(args[0].T, "0"), eq(e, "0"), and(sx(">", e, "0"), x.isStatus(e), eq(x.statusCode(e), args[0].T))))
+		} else {
+			x.assume(st, sx(">", e, "0"))
 		}
 		return Val{T: e}, true
 	case "(*sync.Mutex).Lock", "(*sync.RWMutex).Lock", "(*sync.RWMutex).RLock":
@@ -252,6 +253,18 @@ func (x *Exec) externCall(f *frame, in ssa.Instruction, callee *ssa.Function, c 
 	case "(*sync.Mutex).Unlock", "(*sync.RWMutex).Unlock", "(*sync.RWMutex).RUnlock":
 		x.lockOp(f, in, c, args, false)
 		return Val{}, true
+	case "google.golang.org/grpc/status.FromError", "google.golang.org/grpc/internal/status.FromError":
+		// is_status(e) is defined as "status.FromError(e) succeeds" for non-nil e (e carries a gRPC
+		// status, directly or by wrapping); a nil error converts to (nil, true)
+		x.assumed["extern status.FromError: ok iff err == nil or err carries a gRPC status (definition of the predicate isstatus)"] = true
+		s := x.havocValue(st, callee.Signature.Results().At(0).Type(), "st")
+		ok := x.define(x.fresh("fromerr_ok"), "Bool", or(eq(args[0].T, "0"), x.isStatus(args[0].T)))
+		x.assume(st, implies(eq(args[0].T, "0"), eq(s, "0")))
+		return Val{Tu: []Val{{T: s}, {T: ok}}}, true
+	case "google.golang.org/grpc/status.Code":
+		x.assumed["extern status.Code: OK for nil, the carried code for status errors, Unknown otherwise"] = true
+		c := x.define(x.fresh("code"), x.X.sortOf(callee.Signature.Results().At(0).Type()), ite(eq(args[0].T, "0"), "0", ite(x.isStatus(args[0].T), x.statusCode(args[0].T), "2")))
+		return Val{T: c}, true
 	case "math/rand/v2.Float64", "math/rand.Float64":
 		return x.randFloat64(st), true
 	case "time.Now":
@@ -279,6 +292,11 @@ func (x *Exec) externCall(f *frame, in ssa.Instruction, callee *ssa.Function, c 
 		return v, true
 	}
 	return Val{}, false
+}
+
+func (x *Exec) isStatus(e Term) Term {
+	x.X.declare("is_status", "(declare-fun is_status (Int) Bool)")
+	return sx("is_status", e)
 }
 
 func (x *Exec) statusCode(e Term) Term {
